@@ -1229,3 +1229,101 @@ def do_interleaving_search(req):
 
 
 HANDLERS.update({'interleaving_case': do_interleaving_case, 'interleaving_search': do_interleaving_search})
+
+
+# ------------------------------------------------------------------------------ C08 refute mode
+def _ev_raw(code, tid, q, data, ts=0):
+    import struct
+    from pykdebugparser.kevent import from_kd_buf
+    return from_kd_buf(struct.pack('<Q32sQIIQ', ts, data, tid, (code & 0xfffffffc) | q, 0, 0))
+
+
+def do_lookup_case(req):
+    from pykdebugparser.traces_parser import TracesParser
+    from spec import chunks as S
+    codes = _cached_codes()
+    inv = {v: k for k, v in codes.items()}
+    kind, text = req['what'], req['text']
+    between = req.get('between', [])          # positions (chunk index) after which an unrelated record is inserted
+    tid = 5
+    p = TracesParser(codes, {}, {})
+    evs = []
+    if kind == 'lookup':
+        recs = S.enc_lookup(77, text)
+        code = inv['VFS_LOOKUP']
+        unrelated = lambda: _ev_raw(inv['MACH_SCHED'], tid, 0, b'JUNK' * 8)
+        evs.append(_ev_raw(inv[req.get('syscall', 'BSC_access')], tid, 1, bytes(32)))
+    elif kind == 'global':
+        recs = S.enc_global_string(0, 9, text)
+        code = inv['TRACE_STRING_GLOBAL']
+        unrelated = lambda: _ev_raw(inv['TRACE_DATA_THREAD_TERMINATE'], tid, 0, b'JUNK' * 8)
+    else:
+        recs = S.enc_thread_name(text)
+        code = inv['TRACE_STRING_THREADNAME']
+        unrelated = lambda: _ev_raw(inv['TRACE_DATA_THREAD_TERMINATE'], tid, 0, b'JUNK' * 8)
+    for i, (q, data) in enumerate(recs):
+        evs.append(_ev_raw(code, tid, q, data))
+        if i in between and i < len(recs) - 1:
+            evs.append(unrelated())
+    if kind == 'lookup':
+        evs.append(_ev_raw(inv[req.get('syscall', 'BSC_access')], tid, 2, bytes(32)))
+    traces = []
+    try:
+        for e in evs:
+            r = p.feed(e)
+            if r is not None:
+                traces.append(r)
+                str(r)
+    except BaseException as ex:  # noqa
+        return {'violates': True, 'what': 'feeding the %d records of a %d-byte %s raised %s: %s' % (len(recs), len(text), kind, type(ex).__name__, ex)}
+    cls = {'lookup': 'VfsLookup', 'global': 'TraceStringGlobal', 'name': 'TraceStringThreadname'}[kind]
+    mine = [t for t in traces if type(t).__name__ == cls]
+    got = [getattr(t, 'path', getattr(t, 'vstr', getattr(t, 'name', None))) for t in mine]
+    what = ''
+    if len(mine) != 1:
+        what = '%d %s traces %r for one %d-byte text split over %d records (exactly one expected)' % (len(mine), cls, got, len(text), len(recs))
+    elif got[0] != text:
+        what = 'reassembled text %r differs from the original %r (%d records%s)' % (got[0], text, len(recs), ', unrelated records in between' if between else '')
+    elif kind == 'lookup' and mine[0].vnode_id != 77:
+        what = 'vnode id %r is not the first record\'s 77' % (mine[0].vnode_id,)
+    elif kind == 'lookup':
+        sysc = [t for t in traces if type(t).__name__.startswith('Bsc')]
+        if len(sysc) != 1 or ('"%s"' % text) not in str(sysc[0]):
+            what = 'the enclosing syscall shows %r, not the looked-up path %r' % ([str(x) for x in sysc], text)
+    elif kind == 'global' and (p.global_strings.get(9, '') != text or 0 in p.global_strings):
+        what = 'global string table %r after announcing id 9 = %r' % (p.global_strings, text)
+    elif kind == 'name' and p.tids_names.get(tid, '') != text:
+        what = 'thread name table %r after naming thread %d %r' % (p.tids_names, tid, text)
+    return {'violates': bool(what), 'what': what, 'records': len(recs)}
+
+
+def do_lookup_search(req):
+    import random
+    rnd = random.Random(req.get('seed', 0))
+    budget = req.get('budget', 400)
+    tried = 0
+    lens = sorted(set([0, 1, 15, 16, 17, 23, 24, 25, 31, 32, 33, 47, 48, 49, 55, 56, 57, 63, 64, 65, 87, 88, 89, 120, 183, 184]))
+    plan = []
+    for kind, maxlen in (('lookup', 184), ('global', 184), ('name', 64)):
+        for n in lens:
+            if n <= maxlen:
+                plan.append((kind, n, []))
+                plan.append((kind, n, [0]))
+                plan.append((kind, n, [0, 1, 2, 3, 4]))
+    rnd.shuffle(plan)
+    plan.sort(key=lambda x: 0 if not x[2] else 1)
+    for kind, n, between in plan[:budget]:
+        text = ''.join(chr(97 + (i % 26)) for i in range(n))
+        if kind == 'lookup' and n:
+            text = '/' + text[1:]
+        tried += 1
+        r = do_lookup_case({'what': kind, 'text': text, 'between': between})
+        if r['violates']:
+            r['request'] = {'kind': 'lookup_case', 'what': kind, 'text': text, 'between': between}
+            return {'tried': tried, 'bound': 'texts of the boundary lengths 0..184, with/without unrelated same-thread records between the chunks',
+                    'found': r, 'violates': True, 'what': r['what']}
+    return {'tried': tried, 'bound': 'texts of the boundary lengths 0..184, with/without unrelated same-thread records between the chunks', 'found': None,
+            'violates': False}
+
+
+HANDLERS.update({'lookup_case': do_lookup_case, 'lookup_search': do_lookup_search})
